@@ -7,7 +7,7 @@ import json
 import drive
 import p_schema as PS
 
-LEAN_TARGETS = ["Verif.Props.C16", "Verif.Props.Ties"]
+LEAN_TARGETS = ["Verif.Props.C16", "Verif.Props.Ties", "Verif.Props.TiesSchema"]
 LEVEL = "proof"
 ASSUMPTIONS = [
     "domain: numeric OID with at least two arcs, descriptor names, OID lists, non-empty description / extension strings of any code points, "
